@@ -175,9 +175,9 @@ chk("C08", "exploration",
     "bindgen's derive lists are compared with a direct recursive specification of the documented rules, and a withheld trait counts "
     "only if rustc also accepts the derive when it is added to a copy of the bindings (two independent oracles must concur). "
     "(2) Generated graphs with --impl-debug / --impl-partialeq / --with-derive-default: a Rust program fills objects member by member "
-    "and checks that hand-written Default is all-zero bytes incl. padding, that == is true for identical objects and false after "
+    "and checks that every member of a hand-written Default is zero, that == is true for identical objects and false after "
     "changing exactly one member or bit-field (each in turn), and that {:?} does not panic; a sample runs under Miri for UB in the "
     "generated impls and accessors.",
-    "My derivability specification covers the plain-data subset; spec-only disagreements are notes. Padding inspection is native only (a typed move does not preserve padding under Miri's model).",
+    "My derivability specification covers the plain-data subset; spec-only disagreements are notes. Padding bytes are not inspected: a typed move does not preserve padding, so 'all-zero including padding' is observed member-wise only.",
     "runtime monitoring: specification + rustc concurrence oracle, and executed behavioural probes (native + Miri)",
     "DESIGN.md §4 C08")
